@@ -19,7 +19,9 @@ from corr import C14_world as W
 PROPERTY = "C14"
 RULE = ("one generated source schema (harness/gen/schema.py + code-built resolvers / python names / type resolvers) "
         "and a random sequence of clone / transform_schema(visibility | camel-case | schema-directive visitor) / "
-        "extend_schema / _replace_types_and_directives steps applied to it; one evaluation = one step checked; "
+        "extend_schema / _replace_types_and_directives / in-place on_schema steps applied to it, each followed by registrations "
+        "(register_resolver / register_subscription / register_default_resolver, method and decorator forms) on the DERIVED "
+        "schema for a type with and a type without registry entries in the source; one evaluation = one step checked; "
         "non-trivial = distinct (step kind, what it hid/added, schema shape) whose result differs from the source")
 ASSUMPTIONS = [
     "visibility predicates are finite sets of hidden names (the theorems quantify over arbitrary predicates)",
@@ -400,7 +402,10 @@ def apply_step(step, schemas, funcs):
                 cur = make_visitor(v, funcs).on_schema(cur)
                 if cur is not c:
                     return None, "internal:NotInPlace"
-                c.validate()      # an invalid intermediate schema (e.g. the query type hidden) is a rejected step
+                # an invalid intermediate schema (e.g. the query type hidden) is a rejected step; validate_schema is called
+                # directly: an in-place visitor that replaces no type leaves the cached `_is_valid` of the schema untouched
+                from py_gql.schema.validation import validate_schema
+                validate_schema(c)
             return c, "ok"
         if step["op"] == "extend":
             step["sdl"] = ext_sdl(step["ext"], src)
@@ -692,6 +697,9 @@ def one_sequence(ctx, seed_note, size, n_steps, steps=None, build_seed=None):
     except Exception as e:  # noqa
         base_text = "exc:" + type(e).__name__
     ctx.stat("source:types=%d" % min(len(base_world["schemas"][0]["types"]), 30))
+    base_registry = W.registry_digest(source)
+    ctx.stat("source:registry-types=%d" % min(len(base_registry["resolvers"]) + len(base_registry["default_resolvers"]), 9))
+    post_rng = random.Random(seed ^ 0x5EED)
     record = {"seed": seed, "size": size, "steps": [], "sdl": sdl}
     schemas = [source]
     failures = []
@@ -734,6 +742,30 @@ def one_sequence(ctx, seed_note, size, n_steps, steps=None, build_seed=None):
                 kind = "%s.%s" % (o.get("o", "?"), m.group(2))
             fail("frame:source-modified:%s:%s" % (step["op"], kind),
                  "the SOURCE schema's object graph changed during %s: %s" % (step["op"], d))
+        reg_now = W.registry_digest(source)
+        if reg_now != base_registry:
+            d = W.first_diff(base_registry, reg_now) or ""
+            fail("frame:source-registry-modified:%s:%s" % (step["op"], d.split(".")[1] if "." in d else "registry"),
+                 "the SOURCE schema's resolver registries changed during %s: %s" % (step["op"], d))
+        undo_post = None
+        if res is not None and step["op"] != "replace":
+            # the application goes on using the DERIVED schema: registrations on it must not reach the source
+            try:
+                done, undo_post = W.post_derivation_registrations(res, source, funcs, post_rng)
+                for x in done:
+                    ctx.stat("post-registration:%s" % x.split("(")[1].rstrip(")"))
+            except Exception as e:  # noqa
+                fail("step-raises:post-registration:%s:%s" % (step["op"], type(e).__name__),
+                     "register_resolver / register_subscription / register_default_resolver on the %s result raised %r" % (step["op"], e))
+            reg_now = W.registry_digest(source)
+            if reg_now != base_registry:
+                d = W.first_diff(base_registry, reg_now) or ""
+                fail("frame:source-registry-modified:registration-on-%s-result:%s" % (step["op"], d.split(".")[1] if "." in d else "registry"),
+                     "registering resolvers on the %s RESULT changed the SOURCE schema's registries: %s" % (step["op"], d))
+            after_raw2 = dumper.dump([source])
+            if after_raw2 != base_raw and after_raw == base_raw:
+                fail("frame:source-modified:registration-on-%s-result" % step["op"],
+                     "registering resolvers on the %s RESULT changed the SOURCE schema's objects: %s" % (step["op"], W.first_diff(base_raw, after_raw2)))
         bad = W.closed_violations(source)
         if bad:
             fail("source-unusable:not-closed:%s" % step["op"], "source no longer closed: %s" % bad[0])
@@ -746,7 +778,12 @@ def one_sequence(ctx, seed_note, size, n_steps, steps=None, build_seed=None):
             text = "exc:" + type(e).__name__
         if text != base_text:
             fail("source-unusable:print-differs:%s" % step["op"], "source prints differently after the step")
+        if undo_post is not None:
+            undo_post()         # the derived schema is put back as derived (the model knows nothing about these registrations)
         if res is not None:
+            if step["op"] == "clone" and W.registry_digest(res) != base_registry:
+                fail("preserved:clone:schema:resolver-registry", "a clone's resolver registries differ from its source's: %s"
+                     % W.first_diff(base_registry, W.registry_digest(res)))
             schemas.append(res)
             def closed_check(when):
                 bad = W.closed_violations(res)
